@@ -28,8 +28,11 @@ def tlc_generate(module, cfg, name, workers=8, timeout=1500):
 
 
 def src_exprparens(tier, seed):
-    cfg = "MC_ExprParens_%s.cfg" % tier
-    raw, st = tlc_generate("MC_ExprParens", cfg, "g_exprparens_" + tier)
+    raw, st = tlc_generate("MC_ExprParens", "MC_ExprParens_%s.cfg" % tier, "g_exprparens_" + tier)
+    raw2, st2 = tlc_generate("MC_ExprParens", "MC_ExprParens_luau_%s.cfg" % tier, "g_exprparens_luau_" + tier)
+    raw += raw2
+    st = {"module": "MC_ExprParens", "cfg": [st["cfg"], st2["cfg"]], "states": st["states"] + st2["states"],
+          "distinct": st["distinct"] + st2["distinct"], "wall": st["wall"] + st2["wall"], "cases": len(raw)}
     raw.sort(key=lambda c: json.dumps(c, sort_keys=True))
     cases = []
     for i, c in enumerate(raw):
@@ -37,6 +40,7 @@ def src_exprparens(tier, seed):
         luau = meta["ctx"] in LUAU_CTX or '"cast"' in json.dumps(meta["expr"]) or '"ifexp"' in json.dumps(meta["expr"])
         ops = json.dumps(meta["expr"])
         syntax = "Luau" if luau else "Lua54"
+        meta["sig"] = "ctx=" + meta["ctx"]
         cases.append({
             "id": "ep%d" % i, "tree": c["tree"], "meta": meta,
             "cfg": {"syntax": syntax}, "sweep": {"column_width": "all"},
